@@ -143,7 +143,10 @@ def compare(p, q, variables=False, exact_kinds=True):
             for k in ka:
                 same(ka[k], kb[k], "op[%d].%s" % (i, k), out, exact_kinds)
     if variables:
-        if set(p.variables) != set(q.variables):
+        # arrays passed by value are written as declarations A0, A1, ...: re-loading adds those names, nothing else
+        import re
+        extra = set(q.variables) - set(p.variables)
+        if not set(p.variables) <= set(q.variables) or any(not re.fullmatch(r"A[0-9]+", k) for k in extra):
             out.append("variables %s -> %s" % (sorted(p.variables), sorted(q.variables)))
         else:
             for k in p.variables:
